@@ -43,6 +43,35 @@ class Unsupported(Exception):
     pass
 
 
+class ImplTimeout(BaseException):
+    """the implementation did not return within CASE_TIMEOUT seconds (BaseException: not swallowed by the
+    bare `except:` clauses of the code under test)"""
+
+
+CASE_TIMEOUT = 10
+
+
+class time_limit(object):
+    """SIGALRM guard around one implementation call (the checks run single-threaded in the main thread)"""
+
+    def __init__(self, seconds=CASE_TIMEOUT):
+        self.seconds = seconds
+
+    def _raise(self, signum, frame):
+        raise ImplTimeout()
+
+    def __enter__(self):
+        import signal
+        self.old = signal.signal(signal.SIGALRM, self._raise)
+        signal.alarm(self.seconds)
+
+    def __exit__(self, *a):
+        import signal
+        signal.alarm(0)
+        signal.signal(signal.SIGALRM, self.old)
+        return False
+
+
 # ------------------------------------------------------------------------------------------------
 # text
 
@@ -189,7 +218,13 @@ def drive(case, want_state=True):
         except Unsupported as e:
             res['unsupported'] = str(e)
     try:
-        s.SolveEquation()
+        with time_limit():
+            s.SolveEquation()
+    except ImplTimeout:
+        res['outcome'] = 'OtherError'
+        res['raw_exc'] = 'NoReturnWithin%ds' % CASE_TIMEOUT
+        res['exc_is_value_error'] = False
+        res['hang'] = True
     except Exception as e:  # noqa
         res['outcome'] = common.exc_class(e)
         res['raw_exc'] = type(e).__name__
